@@ -273,8 +273,11 @@ package vm
 //@ scan[C07.inputglobals.writers] C07 fieldwriters VirtualMachine.inputGlobals: createVM Clone WithGlobals
 //@ scan[C07.importer.writers] C07 fieldwriters VirtualMachine.importer: Clone WithImporter
 //@ scan[C07.main.writers] C07 fieldwriters VirtualMachine.main: Clone New Run
-// Inventory of the VM's fields: a new one needs a disposition (which invocations may write it).
-//@ scan[C07.vm.fields] C07 structfields VirtualMachine: ip sp fp halt startCount activeFrame activeCode main importer os modules inputGlobals globals loadedCode running concAllowed runMutex cloneMutex tmp stack frames
+// Inventory of the VM's fields: a new one needs a disposition (which invocations may write it). Also part of C14 and
+// C11: whatever a VM remembers about modules and globals between instructions is in these fields - `modules` is the one
+// table of evaluated modules, there is no second table that remembers what an import produced (seed C14h added a table of
+// from-import results: later importers of a module got the value its variable had when the first one asked).
+//@ scan[C07.vm.fields] C07,C14,C11 structfields VirtualMachine: ip sp fp halt startCount activeFrame activeCode main importer os modules inputGlobals globals loadedCode running concAllowed runMutex cloneMutex tmp stack frames
 //@ scan[C07.halt.writers] C07 fieldwriters VirtualMachine.halt: start resetForNewCode
 //@ scan[C07.running.writers] C07 fieldwriters VirtualMachine.running: start stop Clone
 //@ scan[C07.startcount.writers] C07 fieldwriters VirtualMachine.startCount: start
@@ -366,15 +369,19 @@ package vm
 //@ modifies f.defers
 //@ ensures[C01.defer.front] len(f.defers) == old(len(f.defers)) + 1 && f.defers[0] == p
 //@ ensures[C01.defer.rest] forall(k, 0, old(len(f.defers)), f.defers[k + 1] == old(f.defers[k]))
-//@ scan[C01.defers.writers] C01 fieldwriters frame.defers: Defer ActivateCode
+// C07 as well: the list of pending deferred calls belongs to ONE activation of a frame slot. Every activation starts
+// with an empty list (ActivateCode) and nothing else writes it, so a call that ended by cancellation cannot hand its
+// pending defers to whatever function a later invocation activates in the same slot (seed C07g stopped clearing the
+// list on activation and skipped the hand-over when the VM was halted).
+//@ scan[C01.defers.writers] C01,C07 fieldwriters frame.defers: Defer ActivateCode
 
 //@ func (*frame).ActivateCode
-//@ props C01
+//@ props C01 C07
 //@ requires f != nil && code != nil
 //@ assume[code.wf] code.Code != nil
 //@ invariant 1: true
 //@ ensures[C01.frame.locals.fresh] f.localsCount > DefaultFrameLocals ==> fresh(f.extendedLocals) && len(f.extendedLocals) == int(f.localsCount) && same(f.locals, f.extendedLocals) && forall(k, 0, len(f.locals), f.locals[k] == nil)
 //@ ensures[C01.frame.locals.inline] f.localsCount <= DefaultFrameLocals ==> len(f.extendedLocals) == 0 && cap(f.extendedLocals) == 0
 //@ ensures[C01.frame.captured.reset] len(f.capturedLocals) == 0 && cap(f.capturedLocals) == 0
-//@ ensures[C01.frame.defers.reset] len(f.defers) == 0
+//@ ensures[C01,C07.frame.defers.reset] len(f.defers) == 0
 
